@@ -220,7 +220,14 @@ func ZZ_C18_Generated(sv *zzsv.T) {
 	var src string
 	vars := map[string]zv{}
 	var order []string
-	if sv.Choice("family", 2) == 0 {
+	fam := sv.Choice("family", 3)
+	if fam == 2 {
+		// conditionals in tail position after foldable constants
+		g := newGen(sv, 1)
+		g.small = true
+		src = zzTailProgram(sv, g).text()
+		vars, order = g.vars, g.order
+	} else if fam == 0 {
 		g := newGen(sv, sv.Param("depth", 1, 2))
 		g.small = true
 		if sv.Choice("withconst", 2) == 1 {
